@@ -70,3 +70,20 @@ Print Assumptions check_complete_sound.
 Example rank_example : wf [0;2;1;1;0] /\ fst (rank [0;2;1;1;0]) = [0; -1; -1; -1; 1]%Z /\
                        idxs_seq [0;2;1;1;0] [0] = [0;4] /\ repair_loops [0;2;1;1;0] = [0;1;2;3;0].
 Proof. split; [apply wfb_wf; vm_compute; reflexivity|vm_compute; auto]. Qed.
+
+(* TIE BY TRANSLATION: core.inflow_idxs, core.outflow_idxs, core.headwater_indices and core.confluence_indices regenerated
+   from the source on every run ARE the models the correspondence runs (kernels 310-313) *)
+From PF Require Import Stream GenExtra GenExtraEq.
+From PFG Require Import GenLoops.
+Theorem gen_inflow_idxs_eq : forall ds sq region, gen_inflow_idxs ds sq region = inflow_idxs ds sq region.
+Proof. exact GenExtraEq.gen_inflow_idxs_eq. Qed.
+Print Assumptions gen_inflow_idxs_eq.
+Theorem gen_outflow_idxs_eq : forall ds sq region, gen_outflow_idxs ds sq region = outflow_idxs ds sq region.
+Proof. exact GenExtraEq.gen_outflow_idxs_eq. Qed.
+Print Assumptions gen_outflow_idxs_eq.
+Theorem gen_headwater_indices_eq : forall ds mask, wf ds -> gen_headwater_indices ds mask = headwater_indices ds mask.
+Proof. exact GenExtraEq.gen_headwater_indices_eq. Qed.
+Print Assumptions gen_headwater_indices_eq.
+Theorem gen_confluence_indices_eq : forall ds mask, wf ds -> gen_confluence_indices ds mask = confluence_indices ds mask.
+Proof. exact GenExtraEq.gen_confluence_indices_eq. Qed.
+Print Assumptions gen_confluence_indices_eq.
